@@ -66,7 +66,7 @@ func runC17(r *core.Run) {
 	rng := r.Rand
 	var evs []relEvent
 	errRep := map[string]bool{}
-	fns := []string{"row_number", "rank", "dense_rank", "cume_dist", "percent_rank", "ntile", "lag", "lead", "first_value", "last_value", "nth_value", "count", "sum", "min", "max", "listagg"}
+	fns := []string{"row_number", "rank", "dense_rank", "cume_dist", "percent_rank", "ntile", "lag", "lead", "first_value", "last_value", "nth_value", "count", "sum", "min", "max", "listagg", "useragg"}
 	for c := 0; c < ncase; c++ {
 		n := []int{1, 2, 3, 5, 9, 20, 60, 170, 330}[rng.Intn(9)]
 		// p: partition key (few values, NULLs, spellings), o: order key (ties, NULLs), v: value column
@@ -162,6 +162,10 @@ func runC17(r *core.Run) {
 			}
 		case "listagg":
 			call = "LISTAGG(v, 'a')"
+		case "useragg":
+			// a user-defined aggregate with a second argument that varies from row to row inside one partition (the partition
+			// key in the row's own spelling): every row gets the value computed with ITS argument
+			call = "tagcount(v, p)"
 		default:
 			call = strings.ToUpper(fn) + "(v)"
 			mkFrame([2]bound{{K: "ub"}, {K: "cur"}})
@@ -177,9 +181,23 @@ func runC17(r *core.Run) {
 			// two calls that differ in the separator only (and only in its letter case): two columns, each with its own value
 			sql = fmt.Sprintf("SELECT id, LISTAGG(v, 'a') OVER (%s) AS r, ROW_NUMBER() OVER (%s) AS rn, LISTAGG(v, 'A') OVER (%s) AS r2 FROM t", win, win, win)
 		}
+		pre := ""
+		if fn == "useragg" {
+			win = partition
+			pre = "DECLARE tagcount AGGREGATE (list, @tag) AS BEGIN VAR @n := 0, @v; WHILE @v IN list DO @n := @n + 1; END WHILE; RETURN @tag || ':' || @n; END; "
+			sql = fmt.Sprintf("SELECT id, tagcount(v, p) OVER (%s) AS r, ROW_NUMBER() OVER (%sORDER BY %s) AS rn FROM t", partition, partition, okey)
+		}
 		cpu := []int{1, 4, 8}[rng.Intn(3)]
 		x := newRelRun(r, cpu, t)
-		res, _, e := x.query(sql + ";")
+		res, _, e := x.query(pre + sql + ";")
+		// the same query cut by LIMIT / OFFSET (no ORDER BY of the query): the rows of the uncut result at those positions,
+		// with the values they have there - the functions see their whole partitions, not the rows that are kept
+		var cut [][]rcell
+		ca, cb, ecut := 0, 0, ""
+		if e == "" && c%3 == 0 && n >= 2 {
+			ca, cb = 1+rng.Intn(n), rng.Intn(n)
+			cut, _, ecut = x.query(fmt.Sprintf("%s LIMIT %d OFFSET %d;", sql, ca, cb)) // (the session has the function already)
+		}
 		x.close()
 		sig := "analytic:" + fn
 		if ign {
@@ -201,6 +219,33 @@ func runC17(r *core.Run) {
 				r.Violation(sig+":row-count", fmt.Sprintf("%s returns %d rows for %d input rows", sql, len(res), n), map[string]interface{}{"sql": sql})
 			}
 			continue
+		}
+		if ca > 0 {
+			txt := func(rows [][]rcell) []string {
+				out := []string{}
+				for _, row := range rows {
+					var cs []string
+					for _, cl := range row {
+						if cl.N {
+							cs = append(cs, "NULL")
+						} else {
+							cs = append(cs, cl.T)
+						}
+					}
+					out = append(out, strings.Join(cs, "|"))
+				}
+				return out
+			}
+			if ecut != "" {
+				r.Violation(sig+":limit:error:"+ecut, sql+" LIMIT .. fails with "+ecut, map[string]interface{}{"sql": sql})
+			} else {
+				hi2 := cb + ca
+				if hi2 > len(res) {
+					hi2 = len(res)
+				}
+				evs = append(evs, relEvent{SQL: fmt.Sprintf("%s LIMIT %d OFFSET %d", sql, ca, cb), Sig: "analytic:limit-without-order", CPU: cpu,
+					Ev: map[string]interface{}{"kind": "concat", "parts": [][]string{txt(res[cb:hi2])}, "whole": txt(cut)}})
+			}
 		}
 		// group by partition (harness-side key; TLC re-checks that each group is exactly a partition)
 		type ent struct {
